@@ -1464,3 +1464,60 @@ func (p *P) wireFamily() []*ssa.Function {
 	}
 	return out
 }
+
+// symLin writes an integer value as a linear combination of opaque atoms: constants, +, -, multiplication by a
+// constant and integer conversions are interpreted; everything else is an atom. Loads of the same named word
+// (`*b.capPerBuffer` evaluated twice) are the same atom — callers use it inside one function, between no stores.
+func symLin(v ssa.Value, depth int) lin {
+	v = stripConv(v)
+	if v == nil {
+		return linConst(0)
+	}
+	if c, ok := constInt(v); ok {
+		return linConst(c)
+	}
+	if depth > 0 {
+		if b, ok := v.(*ssa.BinOp); ok {
+			switch b.Op {
+			case token.ADD:
+				return symLin(b.X, depth-1).add(symLin(b.Y, depth-1), 1)
+			case token.SUB:
+				return symLin(b.X, depth-1).add(symLin(b.Y, depth-1), -1)
+			case token.MUL:
+				if k, ok := constInt(b.Y); ok {
+					return linConst(0).add(symLin(b.X, depth-1), k)
+				}
+				if k, ok := constInt(b.X); ok {
+					return linConst(0).add(symLin(b.Y, depth-1), k)
+				}
+			}
+		}
+	}
+	if u, ok := v.(*ssa.UnOp); ok && u.Op == token.MUL {
+		if w := wordOf(u.X); w != "" {
+			return linAtom("load:" + w)
+		}
+	}
+	return linAtom(valKey(v))
+}
+
+func (a lin) isConst() (int64, bool) { return a.c, len(a.k) == 0 }
+
+// singleAtom: a == 1*atom + 0.
+func (a lin) singleAtom() (string, bool) {
+	if a.c != 0 || len(a.k) != 1 {
+		return "", false
+	}
+	for k, v := range a.k {
+		if v == 1 {
+			return k, true
+		}
+	}
+	return "", false
+}
+
+func (a lin) equal(b lin) bool {
+	d := a.add(b, -1)
+	c, ok := d.isConst()
+	return ok && c == 0
+}
